@@ -448,7 +448,7 @@ func c11Floats(rnd *rand.Rand, nRand int) []float64 {
 }
 
 func runC11(r *mon.Run) {
-	r.SetRule("Lit(v)/LitFunc for every supported type; exhaustive bool, 8-bit (both tiers), 16-bit (thorough); wider integers: limits, 2^k+-1, 10^k+-1, random; floats: +-0, subnormals, extremes, every decade 1e-324..1e308 +-1ulp, integral values of every decimal length 1..23, random bit patterns and decimal mantissas; complex: pairs of those. Each batch rendered formatted, NoFormat and via LitFunc. non-trivial = every value; distinct by (type,value)")
+	r.SetRule("Lit(v)/LitFunc for every supported type; exhaustive bool, 8-bit (both tiers), 16-bit (thorough); wider integers: limits, 2^k+-1, 10^k+-1, random; floats: +-0, subnormals, extremes, every decade 1e-324..1e308 +-1ulp, integral values of every decimal length 1..23, random bit patterns and decimal mantissas; complex: pairs of those. Each batch rendered formatted, NoFormat and via LitFunc; one value of every type next to an import that wants the name of each predeclared numeric/boolean type (as last path element, alias, real name); LitFunc with a stateful function (called exactly once, at construction). non-trivial = every value; distinct by (type,value)")
 	r.Assume("'exactly v' for floats is read as 'the constant converts to exactly v in its type'; +0 and -0 are identified because Go constants have no negative zero; NaN/Inf excluded by the statement")
 	c11NegControls(r)
 	batches := c11Batches(r)
@@ -464,7 +464,122 @@ func runC11(r *mon.Run) {
 	r.Put("exhaustive_types", exhTypes)
 	mon.Parallel(len(batches), func(bi int) { c11Batch(r, batches, bi) })
 	c11MixedKinds(r)
+	c11Neighbours(r)
 	r.Sample(map[string]interface{}{"batch": batches[len(batches)/2].name, "first_values": fmt.Sprintf("%v", first2(batches[len(batches)/2].vals, 8))})
+}
+
+// c11Neighbours: typed literals render a conversion T(v); T must still be the predeclared type when the same File
+// imports a package that wants the name T (as last path element, as alias or as real name), and LitFunc must
+// behave like Lit on the value its function returns — one call, also when the function is not pure.
+func c11Neighbours(r *mon.Run) {
+	typeNames := []string{"bool", "int", "int8", "int16", "int32", "int64", "uint", "uint8", "uint16", "uint32", "uint64", "uintptr", "float32", "float64", "complex64", "complex128", "byte", "rune", "true", "false"}
+	vals := []interface{}{true, false, int(-3), int8(-7), int16(300), int32(-70000), int64(1 << 40), uint(3), uint8(200), uint16(60000), uint32(4000000000), uint64(1 << 63), uintptr(9), float32(1.5), float64(2.25), float64(3), complex64(complex(1, 2)), complex128(complex(3, -4))}
+	for ti, tn := range typeNames {
+		for style := 0; style < 3; style++ {
+			for _, noFormat := range []bool{false, true} {
+				c := mon.Case{Gen: "neighbour", Seed: r.Seed, Index: int64(ti*3 + style), Extra: mon.J(map[string]interface{}{"name": tn, "style": style, "noformat": noFormat})}
+				f := jen.NewFile("p")
+				f.NoFormat = noFormat
+				path := "example.com/codec/" + tn
+				switch style {
+				case 1:
+					path = "example.com/codec/zz"
+					f.ImportAlias(path, tn)
+				case 2:
+					if tn == "true" || tn == "false" {
+						continue
+					}
+					path = "example.com/codec/zz"
+					f.ImportName(path, tn)
+				}
+				f.Var().Id("Ref").Op("=").Qual(path, "Sym")
+				for i, v := range vals {
+					f.Var().Id(fmt.Sprintf("X%d", i)).Op("=").Lit(v)
+				}
+				src, fail := renderFile(f)
+				if fail != "" {
+					r.Violate("batch-unusable", c, "typed literals next to an import that wants the name %s (style %d): %s", tn, style, fail)
+					continue
+				}
+				probs, fatal := judgeLitSource(src, vals)
+				if fatal != "" {
+					r.Violate("batch-unusable", c, "typed literals next to an import that wants the name %s (style %d): %s", tn, style, fatal)
+				}
+				for i, p := range probs {
+					r.Violate("literal-next-to-import", c, "Lit(%s) in a File that imports a package wanting the name %s (style %d): %s\n%s", fmtExact(vals[i]), tn, style, p, mon.Trunc(string(src), 700))
+				}
+				r.Count("files_with_a_neighbouring_import_wanting_a_type_name", 1)
+			}
+		}
+		r.Eval("neighbour|"+tn, true)
+	}
+	// stateful callbacks: a counter, an iterator over values of mixed types
+	{
+		c := mon.Case{Gen: "litfunc-stateful", Seed: r.Seed}
+		seq := []interface{}{1, int8(-3), 2.0, uint16(7), true, float32(0.5), complex128(complex(1, 1)), "s", int64(-9), 3}
+		calls := 0
+		next := func() interface{} { v := seq[calls%len(seq)]; calls++; return v }
+		f := jen.NewFile("p")
+		var want []interface{}
+		for i := 0; i < 3*len(seq); i++ {
+			want = append(want, seq[i%len(seq)])
+			switch i % 3 {
+			case 0:
+				f.Var().Id(fmt.Sprintf("X%d", i)).Op("=").LitFunc(next)
+			case 1:
+				f.Var().Id(fmt.Sprintf("X%d", i)).Op("=").Add(jen.LitFunc(next))
+			default:
+				f.Add(jen.Var().Id(fmt.Sprintf("X%d", i)).Op("=").Do(func(s *jen.Statement) { s.LitFunc(next) }))
+			}
+		}
+		built := calls
+		src, fail := renderFile(f)
+		renderFile(f)
+		switch {
+		case built != len(want):
+			r.Violate("litfunc-calls", c, "%d LitFunc constructions called the function %d times", len(want), built)
+		case calls != built:
+			r.Violate("litfunc-calls", c, "rendering called the LitFunc function again (%d calls after construction, %d after two renders)", built, calls)
+		case fail != "":
+			r.Violate("batch-unusable", c, "LitFunc with a stateful function: %s", fail)
+		default:
+			var nums []interface{}
+			idx := map[int]int{}
+			for i, v := range want {
+				if _, isStr := v.(string); !isStr {
+					idx[len(nums)] = i
+					nums = append(nums, v)
+				}
+			}
+			// renumber: judgeLitSource looks for X0..Xn-1; build the numeric-only file the same way
+			calls = 0
+			g := jen.NewFile("p")
+			k := 0
+			for i := 0; i < len(want); i++ {
+				if _, isStr := want[i].(string); isStr {
+					next()
+					continue
+				}
+				g.Var().Id(fmt.Sprintf("X%d", k)).Op("=").LitFunc(next)
+				k++
+			}
+			src2, fail2 := renderFile(g)
+			if fail2 != "" {
+				r.Violate("batch-unusable", c, "LitFunc with a stateful function: %s", fail2)
+			} else {
+				probs, fatal := judgeLitSource(src2, nums)
+				if fatal != "" {
+					r.Violate("batch-unusable", c, "LitFunc with a stateful function: %s", fatal)
+				}
+				for i, p := range probs {
+					r.Violate("litfunc-stateful", c, "LitFunc(next) number %d should render %s: %s\n%s", idx[i], fmtExact(nums[i]), p, mon.Trunc(string(src2), 600))
+				}
+			}
+			_ = src
+		}
+		r.Eval("litfunc-stateful", true)
+		r.Count("stateful_litfunc_constructions", int64(len(want)))
+	}
 }
 
 // c11MixedKinds: one File in which the same number appears as a rune literal, a byte literal and as Lit of
@@ -672,6 +787,10 @@ func fmtExact(v interface{}) string {
 }
 
 func replayC11(r *mon.Run, c mon.Case) {
+	if c.Gen == "neighbour" || c.Gen == "litfunc-stateful" {
+		c11Neighbours(r)
+		return
+	}
 	batches := c11Batches(r)
 	if int(c.Index) < len(batches) {
 		c11Batch(r, batches, int(c.Index))
